@@ -177,7 +177,7 @@ func scaleProbe(entry string, n int, reps int, build func(n int) (run func(), re
 		return
 	}
 	if t1 > scaleCap {
-		_, r, _ := build(n)
+		_, r := build(n)
 		rep.Violate("C08:"+entry+":time", fmt.Sprintf("%s: size parameter %d took %v (cap %v)", entry, n, t1, scaleCap), map[string]interface{}{"entry": entry, "size_parameter": n, "elapsed_ms": t1.Milliseconds(), "input": r()})
 		return
 	}
